@@ -1,4 +1,4 @@
-"""C08 -- source-annotated syntax tree (VGC + RCA rules R08.1-R08.6)."""
+"""C08 -- source-annotated syntax tree (VGC + RCA rules R08.1-R08.7)."""
 from __future__ import annotations
 
 import ast
@@ -19,7 +19,8 @@ EXPLANATION = (
     "constructor of the grammar.  R08.4: each sub-language of tokenize.Number is included (DFA product, counter-example "
     "reported) in rope's number pattern.  R08.5: every tokenizer string prefix followed by a string body is a word of "
     "rope's string/f-string patterns.  R08.6: a first-match search over the walker's stack of open nodes iterates innermost-first "
-    "(reverse of the push order).  Token search, parenthesis attribution and write-back equality are not decided."
+    "(reverse of the push order).  R08.7: the parameter-list layout pairs defaults with exactly posonlyargs + args (padded idiom "
+    "included) and kw_defaults with kwonlyargs.  Token search, parenthesis attribution and write-back equality are not decided."
 )
 ASSUMPTIONS = [
     "language inclusion is decided over ASCII plus representatives of the non-ASCII \\w/\\d/\\s classes",
@@ -61,6 +62,7 @@ def _covers(sink: Set[str], fld, depth: int = 0) -> bool:
 def check(ctx, res) -> None:
     _check_main(ctx, res)
     _stack_rule(ctx, res)
+    _alignment_rule(ctx, res)
 
 
 def _check_main(ctx, res) -> None:
@@ -250,3 +252,32 @@ def _stack_rule(ctx, res) -> None:
                         "statement' that bounds a string literal is taken from an enclosing block, so a string inside a nested block swallows the string "
                         "that starts the following statement and annotating the module fails or regions overlap", function=m.qualname)
     res.floor("R08.6", "first-match searches over the walker's stacks", n, 1)
+
+
+def _alignment_rule(ctx, res) -> None:
+    """R08.7: where the walker lays out a parameter list it pairs default values with the parameters the language
+    reference aligns them with (defaults: the tail of posonlyargs + args; kw_defaults: kwonlyargs element-wise).  The
+    padded idiom `[None] * (len(X) - len(defaults)) + defaults` zipped with Y needs X and Y to be that same list."""
+    from .. import argalign
+
+    idx = ctx.idx
+    n = 0
+    for f in sorted(idx.functions.values(), key=lambda f: f.qualname):
+        if f.unit.modname != "rope.refactor.patchedast" or not argalign.destructures(f.node):
+            continue
+        rd = argalign.reads(f.node)
+        ps = argalign.pairings(f.node)
+        seen = set()
+        for pr in ps:
+            n += 1
+            seen.add(pr.which)
+            allowed = "posonlyargs + args" if pr.which == "defaults" else "kwonlyargs"
+            res.add("R08.7", f"{f.name}|pairs:{pr.which}", pr.ok, f"{f.unit.rel}:{pr.node.lineno}",
+                    f"{pr.which} is aligned with exactly {allowed}" if pr.ok else
+                    f"{f.name} aligns arguments.{pr.which} with {sorted(pr.labels)}" + (f" after padding to the length of {sorted(pr.pad_labels)}" if pr.pad_labels is not None else "")
+                    + f" instead of exactly {allowed}: with positional-only parameters a default is attached to the wrong parameter (token mismatch: annotating the "
+                    "module fails) or trailing parameters get no region", function=f.qualname)
+        for which in ("defaults", "kw_defaults"):
+            if which in rd and which not in seen:
+                res.undecided("R08.7", f"{f.name}|pairs:{which}", f.where, f"how {which} is aligned with parameters was not recognised")
+    res.floor("R08.7", "default alignments in the patched-AST walker", n, 2)
